@@ -1,0 +1,165 @@
+//! Verification hooks: stand-ins for the `AtomicU64` and `Mutex` used by
+//! `atomic_base_time`.  They pass every operation through to `std`, after
+//! reporting it to an optional process-wide observer.  The observer may
+//! block (that is how a harness suspends a thread between two steps).
+use std::sync::Arc;
+use std::sync::LockResult;
+use std::sync::PoisonError;
+use std::sync::RwLock;
+use std::sync::TryLockError;
+use std::sync::TryLockResult;
+
+pub use std::sync::atomic::Ordering;
+
+/// The kind of operation about to be (or just) performed.
+#[derive(Clone, Copy, Debug, Eq, PartialEq)]
+pub enum Op {
+    /// About to call `Mutex::lock` (may block).
+    Lock,
+    /// `Mutex::lock` returned: the caller now holds the mutex.
+    Locked,
+    /// About to call `Mutex::try_lock` (never blocks).
+    TryLock,
+    /// `Mutex::try_lock` returned; the payload says whether the mutex was acquired.
+    TryLocked(bool),
+    /// About to release the mutex (guard drop).
+    Unlock,
+    /// About to call `Mutex::clear_poison`.
+    ClearPoison,
+    /// About to perform an atomic load.
+    Load(Ordering),
+    /// About to perform an atomic store.
+    Store(Ordering),
+}
+
+/// One observable step.
+#[derive(Clone, Copy, Debug)]
+pub struct Event {
+    /// What is happening.
+    pub op: Op,
+    /// Address of the stand-in object (identifies it within a process).
+    pub object: usize,
+}
+
+type Observer = Arc<dyn Fn(&Event) + Send + Sync>;
+
+static OBSERVER: RwLock<Option<Observer>> = RwLock::new(None);
+
+/// Installs (or removes) the process-wide observer.
+pub fn set_observer(observer: Option<Observer>) {
+    *OBSERVER.write().unwrap_or_else(PoisonError::into_inner) = observer;
+}
+
+#[inline(never)]
+fn emit(op: Op, object: usize) {
+    let observer = OBSERVER
+        .read()
+        .unwrap_or_else(PoisonError::into_inner)
+        .clone();
+    if let Some(observer) = observer {
+        observer(&Event { op, object });
+    }
+}
+
+/// Stand-in for `std::sync::atomic::AtomicU64`.
+#[derive(Debug)]
+pub struct AtomicU64(std::sync::atomic::AtomicU64);
+
+impl AtomicU64 {
+    /// See `std::sync::atomic::AtomicU64::new`.
+    pub const fn new(value: u64) -> Self {
+        Self(std::sync::atomic::AtomicU64::new(value))
+    }
+
+    /// See `std::sync::atomic::AtomicU64::load`.
+    pub fn load(&self, order: Ordering) -> u64 {
+        emit(Op::Load(order), self as *const _ as usize);
+        self.0.load(order)
+    }
+
+    /// See `std::sync::atomic::AtomicU64::store`.
+    pub fn store(&self, value: u64, order: Ordering) {
+        emit(Op::Store(order), self as *const _ as usize);
+        self.0.store(value, order)
+    }
+}
+
+/// Stand-in for `std::sync::Mutex`.
+#[derive(Debug)]
+pub struct Mutex<T>(std::sync::Mutex<T>);
+
+/// Stand-in for `std::sync::MutexGuard`.
+#[derive(Debug)]
+pub struct MutexGuard<'a, T> {
+    guard: std::sync::MutexGuard<'a, T>,
+    object: usize,
+}
+
+impl<T> Mutex<T> {
+    /// See `std::sync::Mutex::new`.
+    pub const fn new(value: T) -> Self {
+        Self(std::sync::Mutex::new(value))
+    }
+
+    /// See `std::sync::Mutex::lock`.
+    pub fn lock(&self) -> LockResult<MutexGuard<'_, T>> {
+        let object = self as *const _ as usize;
+        emit(Op::Lock, object);
+        let ret = self.0.lock();
+        emit(Op::Locked, object);
+        match ret {
+            Ok(guard) => Ok(MutexGuard { guard, object }),
+            Err(e) => Err(PoisonError::new(MutexGuard {
+                guard: e.into_inner(),
+                object,
+            })),
+        }
+    }
+
+    /// See `std::sync::Mutex::try_lock`.
+    pub fn try_lock(&self) -> TryLockResult<MutexGuard<'_, T>> {
+        let object = self as *const _ as usize;
+        emit(Op::TryLock, object);
+        let ret = self.0.try_lock();
+        emit(
+            Op::TryLocked(!matches!(ret, Err(TryLockError::WouldBlock))),
+            object,
+        );
+        match ret {
+            Ok(guard) => Ok(MutexGuard { guard, object }),
+            Err(TryLockError::Poisoned(e)) => {
+                Err(TryLockError::Poisoned(PoisonError::new(MutexGuard {
+                    guard: e.into_inner(),
+                    object,
+                })))
+            }
+            Err(TryLockError::WouldBlock) => Err(TryLockError::WouldBlock),
+        }
+    }
+
+    /// See `std::sync::Mutex::clear_poison`.
+    pub fn clear_poison(&self) {
+        emit(Op::ClearPoison, self as *const _ as usize);
+        self.0.clear_poison()
+    }
+}
+
+impl<T> Drop for MutexGuard<'_, T> {
+    fn drop(&mut self) {
+        emit(Op::Unlock, self.object);
+    }
+}
+
+impl<T> std::ops::Deref for MutexGuard<'_, T> {
+    type Target = T;
+
+    fn deref(&self) -> &T {
+        &self.guard
+    }
+}
+
+impl<T> std::ops::DerefMut for MutexGuard<'_, T> {
+    fn deref_mut(&mut self) -> &mut T {
+        &mut self.guard
+    }
+}
